@@ -23,6 +23,8 @@ type C13Case struct {
 	Schedule []string `json:"schedule,omitempty"`
 }
 
+const c13Msg = "Subject: x\r\n\r\nbody line\r\n"
+
 var c13Codes = []int{451, 550, 452, 551, 450, 553}
 
 func c13Addr(ch byte) string { return fmt.Sprintf("ok%c@x.example", ch) }
@@ -157,7 +159,7 @@ func (w *c13World) Start(x *h.Exec) {
 	h.Wait()
 	w.wire = append(w.wire, w.client.In.Drain()...)
 	w.pre = 3 + len(c.Rcpts)
-	msg := "Subject: x\r\n\r\nbody line\r\n"
+	msg := c13Msg
 	switch c.Transfer {
 	case "data":
 		w.segs = [][]byte{[]byte("DATA\r\n"), []byte(msg + ".\r\n")}
@@ -218,6 +220,16 @@ func (w *c13World) Finish(x *h.Exec) *h.Finding {
 		// the backend broke its contract (status for an unknown recipient / too many): only
 		// "no deadlock, no crash, well-formed replies" is judged - all established by now
 		return nil
+	}
+	// what the backend read: the whole message, then EOF (unless it gave up without reading)
+	if c.Ret != "early" {
+		for _, e := range w.be.Trace() {
+			if (e.Kind == "Data" || e.Kind == "LMTPData") && e.Arg == "0" {
+				if string(e.Body) != c13Msg || e.ReadErr != "EOF" {
+					return h.F("c13-body-differs", "%s: the backend read %q ending with %q, want the whole message %q then EOF", desc, e.Body, e.ReadErr, c13Msg)
+				}
+			}
+		}
 	}
 	// intermediate replies: 354 for DATA, 250 for the first of two chunks
 	switch c.Transfer {
